@@ -1,7 +1,7 @@
 from reghelp import *
 
 CHECK = dict(
-    runs=runs3('h_life', (16, 8, 16), (96, 48, 160)),
+    runs=runs3('h_life', (16, 8, 16), (64, 32, 96)),
     par=6,
     level='exploration',
     rule='one evaluation = one seeded execution: trees of threads created through thread_create / thread_create11 / go / a thread pool on 1-6 vCPUs with seeded work-stealing flags and a '
